@@ -6,7 +6,11 @@ package main
 // statements and enumerates the readings they leave open.
 
 import (
+	"sort"
+	"strconv"
 	"strings"
+
+	"verifharness/internal/ank"
 
 	"verifharness/internal/fw"
 	"verifharness/internal/gen"
@@ -14,7 +18,20 @@ import (
 	"verifharness/internal/wk"
 )
 
+// directProg is a program judged by a direct oracle written from the statement
+// (for constructs the reference model does not cover): either the multiset of its
+// probe events is given, or a sibling program must produce exactly the same trace.
+type directProg struct {
+	name    string
+	src     string
+	want    []string // expected events as a multiset (nil: use sameAs)
+	sameAs  string   // a sibling program whose trace must be identical
+	wantErr string   // substring required in the error text of src ("" = no requirement)
+	sig     string
+}
+
 type modelProp struct {
+	direct  []directProg
 	id      string
 	prof    gen.Profile
 	rule    string
@@ -90,6 +107,10 @@ func registerModelProp(mp *modelProp) {
 			}
 		},
 		Run: func(c *wk.Case) {
+			if c.Index >= len(mp.fixed) && c.Index < len(mp.fixed)+len(mp.direct) {
+				runDirect(c, mp, mp.direct[c.Index-len(mp.fixed)])
+				return
+			}
 			var prog []gen.Stmt
 			feat := map[string]int{}
 			if c.Index < len(mp.fixed) {
@@ -140,6 +161,91 @@ func registerModelProp(mp *modelProp) {
 	})
 }
 
+func runDirect(c *wk.Case, mp *modelProp, d directProg) {
+	c.Begin(d.src)
+	c.Tag("direct:" + d.name)
+	for rep := 0; rep < 6; rep++ {
+		real := realrun.Run(d.src)
+		c.Eval("direct|"+d.src, true)
+		c.Events(len(real.Trace))
+		input := map[string]interface{}{"source": d.src, "observed_trace": real.Trace, "observed_error": real.ErrText}
+		if real.Panicked {
+			c.Violation(real.PanicSig, real.PanicVal, input)
+			return
+		}
+		if real.TimedOut || real.Overflow {
+			c.Inconclusive("watchdog", d.name, input)
+			return
+		}
+		if d.wantErr != "" && !strings.Contains(real.ErrText, d.wantErr) {
+			c.Violation(mp.id+":"+d.sig+":error", "the run ended with error "+strconv.Quote(real.ErrText)+", expected one containing "+strconv.Quote(d.wantErr), input)
+			return
+		}
+		want := d.want
+		got := append([]string(nil), real.Trace...)
+		if want == nil {
+			ref := realrun.Run(d.sameAs)
+			want = ref.Trace
+			input["sibling_source"] = d.sameAs
+			input["sibling_trace"] = ref.Trace
+		} else {
+			want = append([]string(nil), want...)
+			sort.Strings(want)
+			sort.Strings(got)
+		}
+		if strings.Join(got, "\n") != strings.Join(want, "\n") {
+			input["expected"] = want
+			c.Violation(mp.id+":"+d.sig, "observed events differ from what the statement fixes for this program (run "+strconv.Itoa(rep+1)+")", input)
+			return
+		}
+	}
+}
+
+// C08: for-in visits every map entry once, also when keys of different types print alike.
+func c08Direct() []directProg {
+	entries := [][2]interface{}{{int64(1), "int"}, {"1", "str"}, {int64(2), "two"}, {true, "bool"}, {"true", "strue"}, {1.5, "flt"}, {"1.5", "sflt"}, {"2", "stwo"}}
+	var lits, want []string
+	for _, e := range entries {
+		lits = append(lits, ank.Render(e[0])[strings.Index(ank.Render(e[0]), "(")+1:len(ank.Render(e[0]))-1]+": "+strconv.Quote(e[1].(string)))
+	}
+	_ = lits
+	src := "m = {1: \"int\", \"1\": \"str\", 2: \"two\", true: \"bool\", \"true\": \"strue\", 1.5: \"flt\", \"1.5\": \"sflt\", \"2\": \"stwo\"}\n" +
+		"for k, v in m { rd(\"e\", [typeOf(k), v]) }\nfor k in m { rd(\"k\", typeOf(k)) }\nn = 0\nfor k, v in m { n++ }\nrd(\"n\", n)"
+	for _, e := range entries {
+		t := map[bool]string{true: "string", false: ""}[false]
+		switch e[0].(type) {
+		case int64:
+			t = "int64"
+		case string:
+			t = "string"
+		case bool:
+			t = "bool"
+		case float64:
+			t = "float64"
+		}
+		want = append(want, "rd e="+ank.Render([]interface{}{t, e[1]}), "rd k="+ank.Render(t))
+	}
+	want = append(want, "rd n="+ank.Render(int64(len(entries))))
+	return []directProg{{name: "forin-map-keys-that-print-alike", src: src, want: want, sig: "forin-map:entries-visited"}}
+}
+
+// C09: every deferred call runs exactly once, in reverse order, with the arguments of its
+// defer statement, when the invocation ends - also when what ends it is the cancellation
+// of the context (only Go functions are deferred here: a script callee would be cut short).
+func c09Direct() []directProg {
+	mk := func(end string) string {
+		return "func cf(q) {\n  defer h1(1)\n  defer hv(2, 3, 4)\n  for i = 0; i < 3; i++ {\n    defer h2(5, i + q)\n  }\n  if q > 0 {\n    defer h3(6, 7, 8)\n  }\n  p(9)\n  " + end + "\n  p(10)\n}\n" +
+			"func outer() {\n  defer h2(11, 12)\n  defer h1(13)\n  cf(1)\n  p(14)\n}\ndefer h1(15)\ndefer hv(16, 17)\nouter()\np(18)"
+	}
+	top := func(end string) string {
+		return "defer h1(1)\ndefer h2(2, 3)\nfor i = 0; i < 2; i++ {\n  defer hv(4, i)\n}\np(5)\n" + end + "\np(6)\ndefer h1(7)"
+	}
+	return []directProg{
+		{name: "defers-after-cancel-in-nested-functions", src: mk("hcancel()"), sameAs: mk("throw \"X\""), wantErr: "execution interrupted", sig: "defers-after-cancel"},
+		{name: "defers-after-cancel-at-top-level", src: top("hcancel()"), sameAs: top("throw \"X\""), wantErr: "execution interrupted", sig: "defers-after-cancel"},
+	}
+}
+
 func init() {
 	registerModelProp(&modelProp{
 		id: "C07", prof: gen.ProfControl, nQuick: 30000, nThor: 3000000,
@@ -159,14 +265,14 @@ func init() {
 		nontriv: func(f map[string]int) bool { return hasAny(f, "shadow") && hasAny(f, exits...) },
 	})
 	registerModelProp(&modelProp{
-		id: "C08", prof: gen.ProfControl, fixed: tryControlFixed(),
+		id: "C08", prof: gen.ProfControl, fixed: tryControlFixed(), direct: c08Direct(),
 		rule: "PRNG-generated terminating programs (control profile: nested if/else-if/else, switch with multi-expression cases and default in any position, the three loop forms with probing conditions and post expressions, for-in over lists and maps, break/continue/return at every position, conditions from every truthiness class) run on the real interpreter; the recorded probe trace, result and error status must be admitted by a variant of the reference model. Non-trivial = contains a loop or switch and at least one of break/continue/return; distinct = distinct source text.",
 		nontriv: func(f map[string]int) bool {
 			return hasAny(f, "loop-forever", "loop-cond", "loop-cfor", "loop-forin-list", "loop-forin-map", "switch") && hasAny(f, "break", "continue", "return")
 		},
 	})
 	registerModelProp(&modelProp{
-		id: "C09", prof: gen.ProfError, fixed: tryControlFixed(),
+		id: "C09", prof: gen.ProfError, fixed: tryControlFixed(), direct: c09Direct(),
 		rule: "PRNG-generated terminating programs (error profile: try/catch/finally nested in functions, 0-5 defer statements per invocation at top level, in branches and loops, deferred host functions, closures, variadic/spread callees, failing and throwing deferred callees, throw / runtime errors / return at every point) run on the real interpreter; the recorded probe trace (including every deferred call with the arguments it received), result and error status must be admitted by a variant of the reference model. Non-trivial = contains a try or a defer and at least one throw/runtime error/return; distinct = distinct source text.",
 		nontriv: func(f map[string]int) bool {
 			return hasAny(f, "try", "defer") && hasAny(f, "throw", "runtime-error", "return")
